@@ -3,7 +3,9 @@ package main
 import (
 	"context"
 	"flag"
+	"fmt"
 	"math"
+	"os"
 	"math/rand"
 	"strings"
 
@@ -90,6 +92,14 @@ func fkey(p eval.Pawns) (int, int) {
 }
 
 func engineFacts(ctx context.Context, b *board.Board) out.M {
+	if os.Getenv("VERIF_DEBUG") != "" {
+		defer func() {
+			if r := recover(); r != nil {
+				fmt.Fprintln(os.Stderr, "PANIC in engineFacts on", b, r)
+				panic(r)
+			}
+		}()
+	}
 	ev := out.M{}
 	put := func(name string, e eval.Evaluator) {
 		k, fin := fkey(e.Evaluate(ctx, b))
@@ -148,6 +158,50 @@ func nz(a [][]int) [][]int {
 	return a
 }
 
+// randomTight: a king in (or next to) a corner, hemmed in by the enemy king, plus a few pawns and minor pieces.
+func randomTight(r *rand.Rand) string {
+	for {
+		var pieces []board.Placement
+		used := map[board.Square]bool{}
+		put := func(c board.Color, p board.Piece, sq board.Square) bool {
+			if used[sq] || (p == board.Pawn && (sq.Rank() == board.Rank1 || sq.Rank() == board.Rank8)) {
+				return false
+			}
+			used[sq] = true
+			pieces = append(pieces, board.Placement{Square: sq, Color: c, Piece: p})
+			return true
+		}
+		side := board.Color(r.Intn(2))
+		corner := []board.Square{board.A1, board.H1, board.A8, board.H8}[r.Intn(4)]
+		put(side, board.King, corner)
+		// the enemy king two files / ranks away
+		cf, cr := int(corner.File()), int(corner.Rank())
+		df, dr := 2, 1
+		if r.Intn(2) == 0 {
+			df, dr = 1, 2
+		}
+		ef, er := cf+df, cr+dr
+		if cf > 3 {
+			ef = cf - df
+		}
+		if cr > 3 {
+			er = cr - dr
+		}
+		if ef < 0 || ef > 7 || er < 0 || er > 7 || !put(side.Opponent(), board.King, board.NewSquare(board.File(ef), board.Rank(er))) {
+			continue
+		}
+		kinds := []board.Piece{board.Pawn, board.Pawn, board.Pawn, board.Bishop, board.Knight}
+		for k := 0; k < 2+r.Intn(4); k++ {
+			put(board.Color(r.Intn(2)), kinds[r.Intn(len(kinds))], board.Square(r.Intn(64)))
+		}
+		pos, err := board.NewPosition(pieces, board.NoCastlingRights, board.ZeroSquare)
+		if err != nil || pos == nil || pos.IsChecked(side.Opponent()) {
+			continue
+		}
+		return fen.Encode(pos, side, r.Intn(10), 1+r.Intn(40))
+	}
+}
+
 func engines(args []string) {
 	fs := flag.NewFlagSet("engines", flag.ExitOnError)
 	seed := fs.Int64("seed", 1, "seed")
@@ -197,6 +251,32 @@ func engines(args []string) {
 			}
 		}
 		probe(mk(fen.Initial), 2)
+	}
+
+	// tight positions: the side to move has one or two legal moves and its king none -- where a
+	// move filter that drops "bad" moves starves the search
+	tight := 0
+	for tries := 0; tries < 400000 && tight < *n*3; tries++ {
+		f := randomTight(r)
+		a := mk(f)
+		legal, _ := gen.LegalOf(a)
+		if len(legal) == 0 || len(legal) > 2 {
+			continue
+		}
+		kingMoves := false
+		for _, m := range legal {
+			if m.Piece == board.King {
+				kingMoves = true
+			}
+		}
+		if kingMoves {
+			continue
+		}
+		tight++
+		if os.Getenv("VERIF_DEBUG") != "" {
+			fmt.Fprintln(os.Stderr, "tight", f, "mirror", mirrorFen(f))
+		}
+		w.Emit(out.M{"op": "engines", "a": engineFacts(ctx, a), "b": engineFacts(ctx, mk(mirrorFen(f))), "ply": 0, "start": f})
 	}
 
 	for i := 0; i < *n; i++ {
